@@ -446,7 +446,9 @@ func runC15(c *Ctx, w *World, r *Report) {
 }
 
 // compactCountForm: Offset = Offset + 64*n with n a counter of leading all-ones words:
-//   n := 0; for n < len(Words) && Words[n] == 2^64-1 { n++ }; Offset += 64*n; Words = Words[n:]
+//
+//	n := 0; for n < len(Words) && Words[n] == 2^64-1 { n++ }; Offset += 64*n; Words = Words[n:]
+//
 // ok=false with a non-empty reason when the shape is this one but a clause fails.
 func compactCountForm(w *World, fa *FA, st *ssa.Store, L Lin) (string, bool) {
 	var cnt *ssa.Phi
